@@ -1217,6 +1217,12 @@ def gen_fft(rng, cx=False):
                         yield case(name, [x], kw, ns="fft", tags=tags)
                         if dim == 1 and s not in ("__default__",) and nm == "__default__" and ax == "__default__":
                             yield case(name, [x, sv[0]], {}, ns="fft", tags=tags + ["positional_n"])
+            if dim != 1:
+                # repeated transform axes (guarded in the rules), with and without s, on even-length data
+                xs_ = A(rng, shp, "any", True if inverse else cx)
+                for rep_ax in ((0, 0), (-1, -1), (1, 1)):
+                    yield case(name, [xs_], {"axes": rep_ax}, ns="fft", tags=["repeated_axes"])
+                    yield case(name, [xs_], {"s": (4, 4), "axes": rep_ax}, ns="fft", tags=["repeated_axes", "with_s"])
     # shifts
     for name in ("fftshift", "ifftshift"):
         for shp in ((4,), (5,), (3, 4), (2, 3, 5)):
